@@ -151,16 +151,21 @@ def cfg_for_model(cfg: dict) -> str:
     return ";".join(zs) + f"|{d['sensor'] or '-'}|{d['hotwater_valve'] or '-'}|{d['heating_valve'] or '-'}|{cfg['app'] or '-'}"
 
 
-async def episode(loop, cfg, lost_by_day, n_days) -> dict:
+async def episode(loop, cfg, lost_by_day, n_days, announce="after") -> dict:
+    """`announce`: the controller is first heard one second after start() has returned ("after"), or as soon as the
+    transport is open, while start() is still under way ("during")"""
     import ramses_rf.entity_base as EB
 
     EB.random.uniform = lambda a, b: (a + b) / 2            # the poll jitter: deterministic
     ctl = Controller(loop, cfg, lost_by_day)
-    rig = gwrig.Rig(loop, responder=ctl.respond, disable_discovery=False, config={"enable_eavesdrop": False})
+    hello = f" I --- {CTL} --:------ {CTL} 1F09 003 FF0532"     # the controller announces itself
+    rig = gwrig.Rig(loop, responder=ctl.respond, disable_discovery=False, config={"enable_eavesdrop": False},
+                    early_frames=[hello] if announce == "during" else None)
     await rig.start()
     ctl.t0 = loop.time()
     await asyncio.sleep(1.0)
-    rig.transport.inject(f" I --- {CTL} --:------ {CTL} 1F09 003 FF0532")     # the controller announces itself
+    if announce != "during":
+        rig.transport.inject(hello)
     days = []
     for d in range(n_days):
         await asyncio.sleep(ctl.t0 + (d + 1) * DAY - 60.0 - loop.time())
@@ -176,14 +181,15 @@ async def episode(loop, cfg, lost_by_day, n_days) -> dict:
 
 def _worker(args):
     """One episode in a worker process (episodes simulate days of polling: run them on all cores)."""
-    cfg, lost_by_day, n_days = args
+    cfg, lost_by_day, n_days, *rest = args
+    announce = rest[0] if rest else "after"
     from .. import common
 
     common.import_repo()
     rt.quiet()
 
     async def body(loop):
-        return await episode(loop, cfg, lost_by_day, n_days)
+        return await episode(loop, cfg, lost_by_day, n_days, announce)
 
     try:
         o, _ = gwrig.run(body)
@@ -244,19 +250,19 @@ def run(chk: Check) -> None:
         for i, z in cfg["zones"].items():
             keys += [f"000C/{i}{z['class']}", f"000C/{i}04", f"000C/{i}00"]
         lost_by_day = [set(rnd.sample(keys, rnd.randint(1, min(6, len(keys))))) for _ in range(n_lossy)]
-        jobs.append((cfg, lost_by_day, n_lossy + 1))
+        jobs.append((cfg, lost_by_day, n_lossy + 1, "during" if len(jobs) % 3 == 1 else "after"))
     import multiprocessing as mp
 
     with mp.get_context("fork").Pool(min(14, max(1, (os.cpu_count() or 2) - 2))) as pool:
         results = pool.map(_worker, jobs, chunksize=1)
-    for (cfg, lost_by_day, n_days), (status, o) in zip(jobs, results):
+    for (cfg, lost_by_day, n_days, *_ann), (status, o) in zip(jobs, results):
         n_lossy = n_days - 1
         if status != "ok":
             chk.violation("c12.run_died", f"the run itself raised {o}", {"op": "discovery", "cfg": cfg})
             continue
         chk.evaluations += 1
         chk.nontrivial.add((canon_cfg(cfg), json.dumps([sorted(x) for x in lost_by_day])))
-        rep = {"op": "discovery", "cfg": cfg, "lost_by_day": [sorted(x) for x in lost_by_day], "days": o["days"], "asked": o["asked"]}
+        rep = {"op": "discovery", "cfg": cfg, "lost_by_day": [sorted(x) for x in lost_by_day], "days": o["days"], "asked": o["asked"], "announce": (_ann[0] if _ann else "after")}
         chk.count("zones", len(cfg["zones"]))
         chk.count("lossy_days", n_lossy)
         chk.count("frames_written", o["writes"])
